@@ -185,9 +185,13 @@ CHECKS['C10'] = dict(
           'of main returns exactly main (as arrays, not just element-wise); reshape_of_flatten - reshaping the flattened '
           'matrix returns exactly the N-D array (uses surjectivity of the grid enumeration, coords_surj); '
           'incompatible_raises / rank_mismatch_raises (an element-count mismatch, or an axis-count mismatch not explained '
-          'by a single-point side, is refused for every input); result_shape. PARTIAL: the one-sided variants (only one '
-          'index matrix supplied, missing side slowest-to-fastest) and squeezed size-1 axes are modelled executably and '
-          'decided by the round-trip oracle and the model comparison, not by a theorem. Correspondence: h5py / numpy / '
+          'by a single-point side, is refused for every input); result_shape; flatten_pos_only / flatten_spec_only - '
+          'with only one index matrix (a regular grid in any storage permutation) and every size of the other side >= 2, '
+          'the call succeeds and the axes of the missing side are flattened in C order, i.e. taken slowest-to-fastest '
+          '(make_indices_matrix is the grid whose first dimension is fastest, its sort order is the identity, '
+          'transpose_reshape_core). PARTIAL: squeezed size-1 axes and a missing side containing a size-1 dimension '
+          '(which make_indices_matrix refuses unless it is the only one) are modelled executably and decided by the '
+          'oracle and the model comparison, not by a theorem. Correspondence: h5py / numpy / '
           'dask ancillaries, dask data, kept or squeezed size-1 axes, one-sided requests, all three branches.'),
     note=COMMON_NOTE + 'numpy/dask transpose/reshape semantics are modelled by NDArr (C order) and checked by the correspondence.',
     ref='§5 C10')
